@@ -571,6 +571,8 @@ def b_enumerate(it, seq, start=0):
 
 
 def b_list(it, x=()):
+    if isinstance(x, Opaque):
+        return Opaque("list(%s)" % x.what)
     s = it.iterable(x)
     return list(s) if isinstance(s, list) else s
 
@@ -594,6 +596,8 @@ def b_dict(it, *a, **k):
 
 
 def b_set(it, x=()):
+    if isinstance(x, core.SetV):
+        return x
     s = it.iterable(x)
     if isinstance(s, list) and all(is_concrete(v) for v in s):
         return set(s)
